@@ -210,6 +210,77 @@ func otherMountsStage() {
 				rep.Count("mounts-vanish:ok")
 			}
 		}
+		// exact-fit output buffers: a call that fills a guest buffer of buf_len bytes writes buf_len bytes at most - also
+		// when the data fits EXACTLY (no terminator, no padding, no rounding up): the bytes before buf and from buf+buf_len on
+		// keep the canary they were given, for every length around the exact fit
+		{
+			gd := filepath.Join(dir, fmt.Sprintf("guard-%s", engine))
+			os.MkdirAll(gd, 0o755)
+			os.WriteFile(filepath.Join(gd, "data.bin"), []byte("0123456789abcdef0123456789abcdef"), 0o644)
+			os.Symlink("12345678", filepath.Join(gd, "link"))
+			mod, err := rt.InstantiateModule(ctx, cm, wazero.NewModuleConfig().WithName("guard").WithFSConfig(wazero.NewFSConfig().WithDirMount(gd, "/preopened-dir")))
+			if err != nil {
+				hx.Fatal("mounts stage (guard): %v", err)
+			}
+			mem := mod.Memory()
+			const buf = 0x3000
+			callG := func(fn string, args ...uint64) string {
+				out, err := mod.ExportedFunction("c_"+fn).Call(ctx, args...)
+				if err != nil {
+					return "HOST ERROR " + firstLines(err.Error(), 1)
+				}
+				return fmt.Sprintf("errno %d", uint32(out[0]))
+			}
+			mem.Write(1024, []byte("data.bin"))
+			mem.WriteUint32Le(2048, 0xdeadbeef)
+			callG("path_open", 3, 0, 1024, 8, 0, 2, 2, 0, 2048)
+			dfd, _ := mem.ReadUint32Le(2048)
+			type gcase struct {
+				name string
+				run  func(n uint32) string
+			}
+			cases := []gcase{
+				{"path_readlink(link -> 12345678)", func(n uint32) string {
+					mem.Write(1024, []byte("link"))
+					return callG("path_readlink", 3, 1024, 4, buf, uint64(n), 2048)
+				}},
+				{"fd_prestat_dir_name(3) [/preopened-dir]", func(n uint32) string { return callG("fd_prestat_dir_name", 3, buf, uint64(n)) }},
+				{"random_get", func(n uint32) string { return callG("random_get", buf, uint64(n)) }},
+				{"fd_pread(data.bin, one iovec)", func(n uint32) string {
+					mem.WriteUint32Le(2064, buf)
+					mem.WriteUint32Le(2068, n)
+					return callG("fd_pread", uint64(dfd), 2064, 1, 0, 2048)
+				}},
+				{"fd_readdir(3)", func(n uint32) string { return callG("fd_readdir", 3, buf, uint64(n), 0, 2048) }},
+			}
+			for _, gc := range cases {
+				for _, n := range []uint32{0, 1, 7, 8, 9, 14, 15, 16, 23, 24, 25, 31, 32, 33, 47, 48, 49} {
+					canary := make([]byte, 256+int(n))
+					for i := range canary {
+						canary[i] = 0xAA
+					}
+					mem.Write(buf-128, canary)
+					res := gc.run(n)
+					after, _ := mem.Read(buf-128, uint32(len(canary)))
+					bad := -1
+					for i, b := range after {
+						if (i < 128 || i >= 128+int(n)) && b != 0xAA {
+							bad = i
+							break
+						}
+					}
+					rep.Case(fmt.Sprintf("mounts-guard/%s/%s/%d", engine, gc.name, n))
+					if bad >= 0 || strings.HasPrefix(res, "HOST ERROR") {
+						rep.Violate(hx.Violation{Kind: "impl-violation", Signature: "C15:write-outside-the-output-buffer:" + strings.SplitN(gc.name, "(", 2)[0],
+							What:  fmt.Sprintf("%s: %s with an output buffer of %d bytes at %#x answered %s and changed the byte at %#x, which is outside [buf, buf+buf_len)", engine, gc.name, n, buf, res, buf-128+bad),
+							Input: map[string]any{"stage": "other mounts / exact-fit output buffers", "engine": engine, "call": gc.name, "buf": buf, "buf_len": n}, Expected: "only bytes inside the buffer change", Actual: fmt.Sprintf("%s; first changed byte outside at offset %d relative to buf", res, bad-128)})
+						break
+					}
+					rep.Count("mounts-guard:" + res)
+				}
+			}
+			mod.Close(ctx)
+		}
 		// refused calls leave descriptors USABLE: a call that answers an errno has "done nothing" - the descriptors it
 		// named must answer their probes (fd_filestat_get, fd_fdstat_get, fd_readdir from 0, fd_tell / fd_sync) exactly as
 		// before, not only be present in the table (a refused fd_renumber onto a pre-open, reads and writes on a directory,
